@@ -11,7 +11,7 @@ Lemma evRes_ext {A} (F G : nat -> outcome A) r : (forall f, F f = G f) -> evRes 
 Proof. intros H (f0&H0). exists f0. intros f Hf. rewrite H. now apply H0. Qed.
 
 (* the three clause transformers, for an arbitrary final result *)
-Lemma ver_res p w1 w2 w3 v more r : all_ws w1 -> all_ws w2 -> all_ws w3 -> wf_ver v -> v_num v <> [] -> p_ver p = None ->
+Lemma ver_res p w1 w2 w3 v more r : all_ws w1 -> all_ws w2 -> all_ws w3 -> wf_ver v -> num_ok w2 v -> p_ver p = None ->
   evRes (fun f => controllers f (set_ver p v) more) r ->
   evRes (fun f => controllers f p (ch 32 :: ver_text_ws w1 w2 w3 v ++ more)) r.
 Proof.
